@@ -33,8 +33,18 @@ type conn struct {
 	nilShort  bool // Peek(n) beyond the buffered bytes returns (nil, err) instead of (short prefix, err)
 	failAt    int  // for Read: inject an error after this many octets have been delivered (-1: never)
 	failErr   error
+	transient bool // the injected error is returned once, later reads succeed again
+	failed    bool
 	readSoFar int
 }
+
+// timeoutErr is a net.Error-style timeout (what a read deadline produces).
+type timeoutErr struct{}
+
+func (timeoutErr) Error() string        { return "model: i/o timeout" }
+func (timeoutErr) Timeout() bool        { return true }
+func (timeoutErr) Temporary() bool      { return true }
+func (timeoutErr) Is(target error) bool { return target == os.ErrDeadlineExceeded }
 
 var errShort = errors.New("model: short peek")
 var errInjected = errors.New("model: injected read error")
@@ -67,11 +77,13 @@ func (c *conn) Read(p []byte) (int, error) {
 		}
 		c.buf, c.pending = c.pending[0], c.pending[1:]
 	}
-	if c.failAt >= 0 && c.readSoFar >= c.failAt {
+	armed := c.failAt >= 0 && !(c.transient && c.failed)
+	if armed && c.readSoFar >= c.failAt {
+		c.failed = true
 		return 0, c.failErr
 	}
 	n := copy(p, c.buf)
-	if c.failAt >= 0 && c.readSoFar+n > c.failAt {
+	if armed && c.readSoFar+n > c.failAt {
 		n = c.failAt - c.readSoFar
 	}
 	c.buf = c.buf[n:]
@@ -80,13 +92,28 @@ func (c *conn) Read(p []byte) (int, error) {
 }
 
 type Case struct {
-	Codec    string   `json:"codec"`  // "cmpp" | "smpp"
-	Mode     string   `json:"mode"`   // "nonblocking" | "blocking"
-	Frames   []string `json:"frames"` // hex of each complete frame (prefix included)
-	Tail     string   `json:"tail"`   // hex: extra octets after the frames (a truncated frame or a malformed prefix)
-	Cuts     []int    `json:"cuts"`   // offsets at which the stream is cut into arrival chunks
-	NilShort bool     `json:"nil_short"`
-	FailAt   int      `json:"fail_at"` // blocking: inject a read error at this stream offset (-1 none)
+	Codec     string   `json:"codec"`  // "cmpp" | "smpp"
+	Mode      string   `json:"mode"`   // "nonblocking" | "blocking"
+	Frames    []string `json:"frames"` // hex of each complete frame (prefix included)
+	Tail      string   `json:"tail"`   // hex: extra octets after the frames (a truncated frame or a malformed prefix)
+	Cuts      []int    `json:"cuts"`   // offsets at which the stream is cut into arrival chunks
+	NilShort  bool     `json:"nil_short"`
+	FailAt    int      `json:"fail_at"`             // blocking: inject a read error at this stream offset (-1 none)
+	FailKind  string   `json:"fail_kind,omitempty"` // "" plain error | "timeout" (net.Error timeout, os.ErrDeadlineExceeded) | "eof" (io.ErrUnexpectedEOF)
+	Transient bool     `json:"transient,omitempty"` // the injected error occurs once; the stream continues afterwards
+	// Prelude: octets of ANOTHER connection on which the same codec value is used first and which is left
+	// with an incomplete frame (codec values are stateless by contract and may be shared between connections).
+	Prelude string `json:"prelude,omitempty"`
+}
+
+func (c Case) failErr() error {
+	switch c.FailKind {
+	case "timeout":
+		return timeoutErr{}
+	case "eof":
+		return io.ErrUnexpectedEOF
+	}
+	return errInjected
 }
 
 func (c Case) stream() ([]byte, [][]byte) {
@@ -141,6 +168,16 @@ func run(c Case) *vk.Violation {
 	tail := vk.UnHex(c.Tail)
 	cd := newCodec(c.Codec)
 	k := c.Codec + "/" + c.Mode
+	if c.Prelude != "" {
+		// the same codec value first serves another connection, which stays in the middle of a frame
+		pre := &conn{buf: vk.UnHex(c.Prelude), failAt: -1, nilShort: c.NilShort}
+		for i := 0; i < 4; i++ {
+			if _, err := cd.Decode(pre); err != nil {
+				break
+			}
+		}
+		k += "/after-other-connection"
+	}
 	if c.Mode == "nonblocking" {
 		cn := &conn{nilShort: c.NilShort, failAt: -1}
 		next := 0
@@ -205,11 +242,11 @@ func run(c Case) *vk.Violation {
 		return nil
 	}
 	// blocking
-	cn := &conn{pending: c.chunks(s), failAt: c.FailAt, failErr: errInjected}
+	cn := &conn{pending: c.chunks(s), failAt: c.FailAt, failErr: c.failErr(), transient: c.Transient}
 	off := 0
 	for i := 0; i <= len(frames); i++ {
 		f, err := cd.DecodeBlocked(cn)
-		complete := i < len(frames) && (c.FailAt < 0 || c.FailAt >= off+len(frames[i]))
+		complete := i < len(frames) && (c.FailAt < 0 || c.FailAt >= off+len(frames[i]) || (c.Transient && c.FailAt < off))
 		if complete {
 			if err != nil {
 				return vk.Violf(k+"/unexpected-error", c, "DecodeBlocked call %d failed with %v although frame %d is completely readable", i, err, i)
@@ -317,13 +354,27 @@ func drawCase(t *rapid.T) Case {
 	}
 	if c.Mode == "blocking" && rapid.IntRange(0, 2).Draw(t, "inject") == 0 {
 		c.FailAt = rapid.IntRange(0, total).Draw(t, "failat")
+		c.FailKind = rapid.SampledFrom([]string{"", "timeout", "eof"}).Draw(t, "failkind")
+		c.Transient = rapid.Bool().Draw(t, "transient")
+	}
+	if rapid.IntRange(0, 3).Draw(t, "prelude") == 0 {
+		// another connection served by the same codec value, left inside a frame
+		f := frameOf(bodyGen.Draw(t, "preludeframe"))
+		done := frameOf(bodyGen.Draw(t, "preludedone"))
+		cut := rapid.IntRange(4, len(f)).Draw(t, "preludecut")
+		if cut == len(f) {
+			cut = len(f) - 1
+		}
+		if cut >= 4 {
+			c.Prelude = vk.Hex(append(append([]byte{}, done...), f[:cut]...))
+		}
 	}
 	return c
 }
 
 func nontrivial(c Case) bool {
 	s, frames := c.stream()
-	if c.Tail != "" || c.FailAt >= 0 {
+	if c.Tail != "" || c.FailAt >= 0 || c.Prelude != "" {
 		return true
 	}
 	if len(frames) < 2 {
@@ -349,7 +400,7 @@ func eval(t vk.TB, c Case, constructed bool) {
 		if constructed {
 			rec.NonTrivialConstructed(1)
 		} else {
-			rec.NonTrivial(c.Codec, c.Mode, fmt.Sprint(c.Frames), c.Tail, fmt.Sprint(c.Cuts), c.FailAt, c.NilShort)
+			rec.NonTrivial(c.Codec, c.Mode, fmt.Sprint(c.Frames), c.Tail, fmt.Sprint(c.Cuts), c.FailAt, c.NilShort, c.FailKind, c.Transient, c.Prelude)
 		}
 		rec.Class("nontrivial:" + c.Mode)
 	}
@@ -361,7 +412,13 @@ func eval(t vk.TB, c Case, constructed bool) {
 		}
 	}
 	if c.FailAt >= 0 {
-		rec.Class("injected_read_error")
+		rec.Class("injected_read_error:" + c.FailKind)
+		if c.Transient {
+			rec.Class("injected_read_error_transient")
+		}
+	}
+	if c.Prelude != "" {
+		rec.Class("codec_value_shared_with_another_connection")
 	}
 	if s, _ := c.stream(); len(s) <= 80 {
 		rec.Sample(c.Mode, c)
@@ -410,6 +467,12 @@ func TestEverySingleCut(t *testing.T) {
 				eval(t, Case{Codec: cdc, Mode: "nonblocking", Frames: frames, Cuts: []int{cut}, NilShort: cut%2 == 0, FailAt: -1}, true)
 				eval(t, Case{Codec: cdc, Mode: "blocking", Frames: frames, Cuts: []int{cut}, FailAt: -1}, true)
 				eval(t, Case{Codec: cdc, Mode: "blocking", Frames: frames, Cuts: []int{total / 2}, FailAt: cut}, true)
+				eval(t, Case{Codec: cdc, Mode: "blocking", Frames: frames, Cuts: []int{total / 3}, FailAt: cut, FailKind: "timeout", Transient: true}, true)
+				if cut%7 == 0 {
+					eval(t, Case{Codec: cdc, Mode: "blocking", Frames: frames, Cuts: []int{cut}, FailAt: cut, FailKind: "eof"}, true)
+					pre := append([]byte{0, 0, 0, byte(20 + cut%50)}, vk.UnHex(frames[0])...)
+					eval(t, Case{Codec: cdc, Mode: "nonblocking", Frames: frames, Cuts: []int{cut}, FailAt: -1, Prelude: vk.Hex(pre[:4+cut%(len(pre)-4+1)])}, true)
+				}
 			}
 			for bad := 0; bad < 4; bad++ {
 				p := make([]byte, 4)
